@@ -1000,6 +1000,26 @@ class Curve(BaseCurve):
         """
         assert isinstance(other, self.__class__)
         vectora, vectorb = tuple(self.knotvector), tuple(other.knotvector)
+        if self.weights is None and other.weights is not None:
+            # Fit the homogeneous coordinates (w * P, w) as polynomial splines
+            lstsq = heavy.LeastSquare.spline2spline
+            transmat, materror = lstsq(vectorb, vectora, nodes)
+            transmat = np.array(transmat)
+            oldweights = other.weights
+            numerator = [w * point for w, point in zip(oldweights, other.ctrlpoints)]
+            error = np.dot(np.moveaxis(numerator, 0, -1), np.dot(materror, numerator))
+            error = np.max(np.abs(error))
+            error += np.dot(oldweights, np.dot(materror, oldweights))
+            weights = np.dot(transmat, oldweights)
+            smallest = 1e-9 * max(abs(weig) for weig in weights)
+            for weig in weights:
+                if not weig * weights[0] > 0 or abs(weig) <= smallest:
+                    raise ValueError("Cannot fit: a control point goes to infinity")
+            ctrlpoints = np.dot(transmat, numerator)
+            ctrlpoints = [point / weig for point, weig in zip(ctrlpoints, weights)]
+            self.weights = weights
+            self.ctrlpoints = ctrlpoints
+            return error
         if self.weights is None and other.weights is None:
             lstsq = heavy.LeastSquare.spline2spline
             transmat, materror = lstsq(vectorb, vectora, nodes)
